@@ -55,6 +55,9 @@ enum Tcp {
     Reset,
     /// accepts, never answers
     Silent,
+    /// answers, and closes the connection (FIN) a millisecond after a reply once nothing else
+    /// is pending on it: a healthy server that does not keep idle connections
+    AnswerClose(u32),
 }
 
 #[derive(Serialize, Deserialize, Clone, Debug)]
@@ -88,6 +91,10 @@ struct Plan {
     /// connection's request queue holds, so that servers push back with `Busy`
     #[serde(default)]
     burst: u8,
+    /// after everything else: wait this long, then ask every distinct question once more, one
+    /// after another (0 = no second round)
+    #[serde(default)]
+    second_round_ms: u64,
 }
 
 fn marker(server: usize, tcp: bool) -> Ipv4Addr {
@@ -132,7 +139,8 @@ fn gen_server(r: &mut Rng) -> Server {
         _ => Udp::ServFail(lat(r)),
     };
     let tcp = match r.below(10) {
-        0..=4 => Tcp::Answer(lat(r)),
+        0..=3 => Tcp::Answer(lat(r)),
+        4 => Tcp::AnswerClose(lat(r)),
         5 => Tcp::NxDomain(lat(r)),
         6 => Tcp::Refused,
         7 => Tcp::Blackhole,
@@ -175,13 +183,14 @@ impl Part for PoolPart {
             warmup: r.chance(1, 4),
             cancel_first_ms: if r.chance(1, 5) { *r.pick(&[1u64, 10, 50, 200, 600]) } else { 0 },
             burst: if r.chance(1, 25) { *r.pick(&[5u8, 12, 20, 41]) } else { 0 },
+            second_round_ms: if r.chance(1, 3) { *r.pick(&[30u64, 200, 1500, 20_000]) } else { 0 },
         })
         .unwrap()
     }
     fn run(&self, plan: &Value, trace: bool) -> Report {
         let mut p: Plan = serde_json::from_value(plan.clone()).expect("plan");
         p.sim.trace = trace;
-        let mut sig = mix(p.ordering as u64 ^ (p.num_concurrent_reqs as u64) << 4 ^ (p.callers.len() as u64) << 8 ^ (p.timeout_ms) << 16 ^ (p.warmup as u64) << 40 ^ (p.cancel_first_ms) << 44 ^ (p.burst as u64) << 56);
+        let mut sig = mix(p.ordering as u64 ^ (p.num_concurrent_reqs as u64) << 4 ^ (p.callers.len() as u64) << 8 ^ (p.timeout_ms) << 16 ^ (p.warmup as u64) << 40 ^ (p.cancel_first_ms) << 44 ^ (p.burst as u64) << 56 ^ mix(p.second_round_ms));
         for s in &p.servers {
             let u = match s.udp {
                 Udp::Answer(_) => 1,
@@ -193,6 +202,7 @@ impl Part for PoolPart {
             };
             let t = match s.tcp {
                 Tcp::Answer(_) => 1,
+                Tcp::AnswerClose(_) => 7,
                 Tcp::NxDomain(_) => 2,
                 Tcp::Refused => 3,
                 Tcp::Blackhole => 4,
@@ -229,6 +239,11 @@ impl Part for PoolPart {
         if p.cancel_first_ms != 0 {
             let mut q = p.clone();
             q.cancel_first_ms = 0;
+            out.push(q);
+        }
+        if p.second_round_ms != 0 {
+            let mut q = p.clone();
+            q.second_round_ms = 0;
             out.push(q);
         }
         if p.burst != 0 {
@@ -326,6 +341,7 @@ async fn scenario(p: Plan) {
                 exec::spawn("srv-tcp", async move {
                     let mut hdr = [0u8; 2];
                     let lock = Rc::new(std::cell::Cell::new(false));
+                    let pending = Rc::new(std::cell::Cell::new(0u32));
                     loop {
                         if tcp.read_exact(&mut hdr).await.is_err() {
                             break;
@@ -338,7 +354,7 @@ async fn scenario(p: Plan) {
                         let qn = req.queries.first().map(|q| q.name.to_ascii()).unwrap_or_default();
                         seen.borrow_mut().tcp_ids.entry((k, qn)).or_default().insert(req.metadata.id);
                         let (kind, lat) = match behaviour {
-                            Tcp::Answer(l) => (0, l),
+                            Tcp::Answer(l) | Tcp::AnswerClose(l) => (0, l),
                             Tcp::NxDomain(l) => (1, l),
                             Tcp::Reset => {
                                 exec::count("fault.tcp_reset_after_query");
@@ -356,6 +372,9 @@ async fn scenario(p: Plan) {
                         frame.extend_from_slice(&b);
                         let mut w = tcp.dup();
                         let lock = lock.clone();
+                        let pending = pending.clone();
+                        pending.set(pending.get() + 1);
+                        let closes = matches!(behaviour, Tcp::AnswerClose(_));
                         exec::spawn("srv-tcp-reply", async move {
                             exec::sleep_ns(lat as u64 * MS).await;
                             while lock.get() {
@@ -364,6 +383,14 @@ async fn scenario(p: Plan) {
                             lock.set(true);
                             let _ = w.write_all(&frame).await;
                             lock.set(false);
+                            pending.set(pending.get() - 1);
+                            if closes {
+                                exec::sleep_ns(MS).await;
+                                if pending.get() == 0 {
+                                    exec::count("fault.tcp_server_closed_idle_connection");
+                                    w.shutdown_write();
+                                }
+                            }
                         });
                     }
                     std::future::pending::<()>().await;
@@ -559,6 +586,43 @@ async fn scenario(p: Plan) {
         exec::count("probe.follow_up_after_cancel");
         outcomes.borrow_mut().insert(1000, Outcome { start, end, result, nx });
     }
+    if p.second_round_ms != 0 {
+        exec::sleep_ns(p.second_round_ms * MS).await;
+        let mut asked: Vec<u8> = Vec::new();
+        for qi in p.callers.iter() {
+            if asked.contains(qi) {
+                continue;
+            }
+            asked.push(*qi);
+            let q = qs[*qi as usize % qs.len()].clone();
+            let start = exec::now_ns();
+            let r = match exec::timeout(Duration::from_millis(p.timeout_ms * 6 + 30_000), async { pool.lookup(q, ropts).next().await }).await {
+                Ok(r) => r,
+                Err(()) => {
+                    exec::violate("C18.hang", "second-round", "a second-round lookup was still pending long after every timer could have fired".into());
+                    return;
+                }
+            };
+            let end = exec::now_ns();
+            let (result, nx) = match r {
+                Some(Ok(resp)) => {
+                    let m = resp.answers.iter().find_map(|r| match &r.data {
+                        RData::A(a) => Some(a.0),
+                        _ => None,
+                    });
+                    (Ok((m, resp.truncation)), false)
+                }
+                Some(Err(e)) => {
+                    let nx = matches!(&e, NetError::Dns(DnsError::NoRecordsFound(nr)) if nr.response_code == ResponseCode::NXDomain);
+                    (Err(e.to_string()), nx)
+                }
+                None => (Err("stream ended".into()), false),
+            };
+            exec::count("probe.second_round_lookup");
+            outcomes.borrow_mut().insert(3000 + *qi as usize, Outcome { start, end, result, nx });
+            exec::sleep_ns(30 * MS).await;
+        }
+    }
     let outcomes = outcomes.borrow();
 
     // ---- classification of the servers -----------------------------------------------------------
@@ -570,7 +634,7 @@ async fn scenario(p: Plan) {
         Slow,
     }
     let tcp_eff = |t: Tcp| match t {
-        Tcp::Answer(l) => Eff::Healthy(l as u64 + 3),
+        Tcp::Answer(l) | Tcp::AnswerClose(l) => Eff::Healthy(l as u64 + 3),
         Tcp::NxDomain(l) => Eff::FastFail(l as u64 + 3),
         Tcp::Refused => Eff::FastFail(3),
         Tcp::Reset => Eff::FastFail(5),
@@ -662,7 +726,7 @@ async fn scenario(p: Plan) {
     // with a trusted negative answer, the lookup succeeds whatever the order.
     // (healthy = no transport fault on any protocol it is configured for; a truncated UDP reply
     // is not a fault, it is the cue for TCP)
-    let tcp_healthy = p.servers.iter().any(|s| matches!(s.tcp, Tcp::Answer(_)) && (s.protocols == 1 || (s.protocols == 2 && matches!(s.udp, Udp::Answer(_) | Udp::Truncated(_)))));
+    let tcp_healthy = p.servers.iter().any(|s| matches!(s.tcp, Tcp::Answer(_) | Tcp::AnswerClose(_)) && (s.protocols == 1 || (s.protocols == 2 && matches!(s.udp, Udp::Answer(_) | Udp::Truncated(_)))));
     let nothing_stalls = p.servers.iter().all(|s| (s.protocols == 1 || !matches!(s.udp, Udp::Silent)) && (s.protocols == 0 || !matches!(s.tcp, Tcp::Blackhole | Tcp::Silent)));
     let any_negative = p.servers.iter().any(|s| (s.protocols != 1 && matches!(s.udp, Udp::NxDomain(_) | Udp::ServFail(_))) || (s.protocols != 0 && matches!(s.tcp, Tcp::NxDomain(_))));
     let worst_ms: u64 = p
@@ -679,7 +743,7 @@ async fn scenario(p: Plan) {
             };
             let t = if s.protocols != 0 {
                 match s.tcp {
-                    Tcp::Answer(l) | Tcp::NxDomain(l) => l as u64 + 5,
+                    Tcp::Answer(l) | Tcp::AnswerClose(l) | Tcp::NxDomain(l) => l as u64 + 5,
                     _ => 5,
                 }
             } else {
@@ -695,6 +759,10 @@ async fn scenario(p: Plan) {
     // (under a burst the pool may legitimately give up on `Busy` after its back-off: only the
     // deadline, termination and routing clauses are judged then)
     let unambiguous = (unambiguous_plain || unambiguous_trunc) && p.burst == 0;
+    // a server that closes idle connections can close one just as a concurrent or back-to-back
+    // request is written to it: only the spaced, sequential second round is judged for
+    // availability then
+    let idle_closer = p.servers.iter().any(|s| s.protocols != 0 && matches!(s.tcp, Tcp::AnswerClose(_)));
 
     for (i, o) in outcomes.iter() {
         let took = o.end - o.start;
@@ -733,9 +801,9 @@ async fn scenario(p: Plan) {
             Err(e) => {
                 exec::count("probe.lookup_err");
                 // (b) availability where unambiguous; (d) untrusted NXDOMAIN must not end the search
-                if unambiguous {
+                if unambiguous && (!idle_closer || *i >= 3000) {
                     let inv = if o.nx { "C18.untrusted-nxdomain-final" } else { "C18.unavailable" };
-                    let shape = if *i == 1000 { "follow-up-after-cancel" } else if any_truncating { "after-truncation" } else { "" };
+                    let shape = if *i == 1000 { "follow-up-after-cancel" } else if *i >= 3000 { "second-round" } else if any_truncating { "after-truncation" } else { "" };
                     if exec::violate(inv, shape, format!("caller {i}: {e} although a healthy server exists and every server answers or fails fast (sum {total_ms} ms of {} ms); servers {:?}", p.timeout_ms, p.servers)) {
                         return;
                     }
@@ -744,7 +812,7 @@ async fn scenario(p: Plan) {
         }
     }
     // (e) identical concurrent requests share one upstream exchange
-    if p.stagger_ms == 0 && !p.warmup && p.cancel_first_ms == 0 {
+    if p.stagger_ms == 0 && !p.warmup && p.cancel_first_ms == 0 && p.second_round_ms == 0 {
         let by_q: BTreeMap<u8, Vec<usize>> = p.callers.iter().enumerate().fold(BTreeMap::new(), |mut m, (i, q)| {
             m.entry(*q).or_default().push(i);
             m
